@@ -208,12 +208,26 @@ func c14r1site(c *RC, fn *Func, offer *ast.CallExpr, chanV, cancV string) {
 			c.Fail(fq+"|granted-machine-dropped", pr.Pos(st.loc.B.Stmt.Pos()), "the machine received from Offer is not bound to a variable, so its procs can never be returned")
 			continue
 		}
+		// simple aliases of the machine variable (x := m) name the same machine
+		alias := map[string]bool{m: true}
+		inspectNoLit(fn.Body, func(k ast.Node) bool {
+			if a, ok := k.(*ast.AssignStmt); ok && len(a.Lhs) == len(a.Rhs) {
+				for i := range a.Lhs {
+					if id, ok := a.Rhs[i].(*ast.Ident); ok && alias[id.Name] {
+						if l, ok := a.Lhs[i].(*ast.Ident); ok && fl.assignCount[l.Name] == 1 {
+							alias[l.Name] = true
+						}
+					}
+				}
+			}
+			return true
+		})
 		isDone := func(call *ast.CallExpr) bool {
 			if _, ok := fn.Pkg.isCall(call, qDone); !ok {
 				return false
 			}
 			sel, ok := call.Fun.(*ast.SelectorExpr)
-			return ok && expr(sel.X) == m
+			return ok && alias[expr(sel.X)]
 		}
 		nExits := 0
 		// state: "<count>/<deferred>/<procsModified>"
